@@ -161,6 +161,8 @@ class Sym:
         b = self.b
         mods, deref = set(), False
         refs = {}
+        self._written = getattr(self, '_written', {})
+        written = self._written.setdefault(h, [])
         for bi in self.loops[h]:
             for s in b.blocks[bi]['stmts']:
                 if s['k'] != 'assign':
@@ -168,11 +170,15 @@ class Sym:
                 p = s['p']
                 if '*' in p['pr']:
                     deref = True
+                    written.append(p)
                 else:
                     mods.add(p['l'])
                 r = s['r']
-                if r['k'] in ('ref', 'rawptr') and r.get('mut') and '*' not in r['p']['pr']:
-                    mods.add(r['p']['l'])
+                if r['k'] in ('ref', 'rawptr') and r.get('mut'):
+                    if '*' not in r['p']['pr']:
+                        mods.add(r['p']['l'])
+                    else:
+                        written.append(r['p'])
             t = b.blocks[bi]['term']
             if t['k'] == 'call':
                 if '*' in t['dest']['pr']:
@@ -191,6 +197,30 @@ class Sym:
             st.env[l] = ('phi', h, l, self.read_local(st, l))
         if deref:
             st.heap = {}
+        # memory the loop writes (or borrows mutably) below an input: later reads of it are new values
+        for p in self._written.get(h, []):
+            base = self.read_local(st, p['l'])
+            while base[0] == 'upd':
+                base = base[1]
+            root = base
+            while root[0] in ('f', 'idx', 'dc', 'upd'):
+                root = root[1]
+            if root[0] != 'v':
+                continue
+            prs = []
+            for pr in p['pr']:
+                if pr == '*':
+                    continue
+                if isinstance(pr, dict) and 'f' in pr:
+                    prs.append(pr)
+                else:
+                    break
+            pt = base
+            for pr in prs:
+                pt = ('f', pt, pr['f'])
+            key = (tstr(pt, 100000), ('loop', h))
+            if key not in st.dirty:
+                st.dirty.append(key)
         st.effects.append(('loop', h))
 
     # ------------------------------------------------------------------ values
@@ -274,7 +304,7 @@ class Sym:
 
     def read_place(self, st, p):
         t = self.project(st, self.read_local(st, p['l']), p['pr'])
-        if st.dirty and t[0] in ('f', 'idx', 'v', 'dc'):
+        if st.dirty and t[0] in ('f', 'idx', 'v', 'dc') and '*' in p['pr']:
             s = tstr(t, 100000)
             for pfx, blk in st.dirty:
                 if s == pfx or (s.startswith(pfx) and s[len(pfx)] in '.['):
